@@ -6,6 +6,7 @@
 #include "fiber.h"
 
 #define T2_LOC_POLL 910   /* an idle kernel thread's epoll_wait */
+#define T2_LOC_RELAX 911  /* a cpu_relax() in a spin-wait loop */
 /* protocol events in the trace: kind 919, loc:
  *   951 schedule(f)  952 next() returned f  953 stole f  954/964 switch old/new
  *   955 resumed (a = fiber that was switched away from / the fresh fiber itself)
